@@ -337,3 +337,8 @@ func (r *Rng) shortMessage(d Domain, b *Budget, udhi, hasESM, isReplace bool) pd
 	b.Left -= 300
 	return m
 }
+
+// PickUdhPlain: a user data header without a usable concatenation element (token form).
+func (r *Rng) PickUdhPlain() string {
+	return []string{"~", "0", "5:0102", "0:01", "8:010203", "0:0102+8:01", "36:01"}[r.Intn(7)]
+}
